@@ -40,17 +40,20 @@ func fuzzOne(t *testing.T, target string, data []byte) {
 		return
 	}
 	var rep report
-	// The driver does not hand VERIF_EXCLUDE to fuzz runs: the known-finding classes
-	// (ReadOFF on a polygon face outside general convex position; the capped OFF vertex
-	// pre-allocation) are always switched off here and counted; the kit clauses and
-	// their replays decide whether the findings are still present.
-	excluded, err := checkTarget(target, data, exclusions{offPolygon: true, offPrealloc: true}, &rep)
+	// the driver passes the tags of the still-present known findings in VERIF_EXCLUDE
+	var ex exclusions
+	for _, tag := range strings.Split(os.Getenv("VERIF_EXCLUDE"), ",") {
+		if tag == offTag {
+			ex.offPolygon = true
+		}
+	}
+	excluded, err := checkTarget(target, data, ex, &rep)
 	for _, tag := range excluded {
 		noteFuzzExclusion(tag)
 	}
-	if isOFFDegeneratePanic(err) && len(offPolygons(data)) > 0 {
-		// belt and braces: the same panic from an input with a polygon face that the class
-		// predicate accepted would be reported by the kit clauses; the fuzzer keeps searching
+	if ex.offPolygon && isOFFDegeneratePanic(err) {
+		// the known finding's panic from a polygon face that the class predicate let through
+		// (the kit clauses would report it): counted, and the fuzzer keeps searching
 		noteFuzzExclusion(offTag + "-by-message")
 		return
 	}
